@@ -136,7 +136,7 @@ func rootsEndpoint() endpoint {
 		},
 		decode: func(body []byte) (string, interface{}, bool) {
 			var m mRoots
-			if json.NewDecoder(bytes.NewReader(body)).Decode(&m) != nil {
+			if json.Unmarshal(body, &m) != nil {
 				return "", nil, false
 			}
 			var xs []string
@@ -184,7 +184,7 @@ func consEndpoint(first, second uint64) endpoint {
 		},
 		decode: func(body []byte) (string, interface{}, bool) {
 			var m mCons
-			if json.NewDecoder(bytes.NewReader(body)).Decode(&m) != nil {
+			if json.Unmarshal(body, &m) != nil {
 				return "", nil, false
 			}
 			return listCoq(m.Consistency), m.Consistency, true
@@ -206,7 +206,7 @@ func proofEndpoint(hash []byte, size uint64) endpoint {
 		},
 		decode: func(body []byte) (string, interface{}, bool) {
 			var m mProof
-			if json.NewDecoder(bytes.NewReader(body)).Decode(&m) != nil {
+			if json.Unmarshal(body, &m) != nil {
 				return "", nil, false
 			}
 			return lib.Pair(lib.Z(m.LeafIndex), listCoq(m.AuditPath)), m, true
@@ -234,7 +234,7 @@ func eapEndpoint(index, size uint64) endpoint {
 		},
 		decode: func(body []byte) (string, interface{}, bool) {
 			var m mEAP
-			if json.NewDecoder(bytes.NewReader(body)).Decode(&m) != nil {
+			if json.Unmarshal(body, &m) != nil {
 				return "", nil, false
 			}
 			return lib.Pair(lib.Bytes(m.LeafInput), lib.Bytes(m.ExtraData), listCoq(m.AuditPath)), m, true
